@@ -57,6 +57,34 @@ func (s *Src) Seek(off int64, whence int) (int64, error) {
 	return s.R.Seek(off, whence)
 }
 
+// streamSrc is a source that cannot seek and hands out its last bytes together with io.EOF
+// (as network and decompressing readers do).
+type streamSrc struct {
+	b   []byte
+	off int
+}
+
+func (s *streamSrc) Read(p []byte) (int, error) {
+	n := copy(p, s.b[s.off:])
+	s.off += n
+	if s.off == len(s.b) {
+		return n, io.EOF
+	}
+	return n, nil
+}
+
+// byteStreamSrc additionally implements io.ByteReader, so the library reads it without buffering.
+type byteStreamSrc struct{ streamSrc }
+
+func (s *byteStreamSrc) ReadByte() (byte, error) {
+	if s.off >= len(s.b) {
+		return 0, io.EOF
+	}
+	c := s.b[s.off]
+	s.off++
+	return c, nil
+}
+
 type ROp struct {
 	K    string // "read", "readbyte", "seek", "seeklast", "blocked", "setcache", "close"
 	N    int
@@ -89,6 +117,7 @@ type RScenario struct {
 	Partial   bool
 	Sticky    bool
 	Ref       []tr.M // replies of the reference (uncached) run, for "same" comparison
+	SrcKind   string // "" = seekable *Src; "stream", "bytestream" = sources that cannot seek (histories without Seek)
 }
 
 func newCacheOf(kind string, n int, stats bool) bgzf.Cache {
@@ -140,7 +169,14 @@ func RunReader(t *tr.Writer, sc RScenario) []tr.M {
 		m["sig"] = "reader/" + sc.Class + "/" + ev
 		t.Ev(ev, m)
 	}
-	res := watch.Call(Marker, func() { br, err = bgzf.NewReader(src, sc.RD) })
+	var rsrc io.Reader = src
+	switch sc.SrcKind {
+	case "stream":
+		rsrc = &streamSrc{b: stream}
+	case "bytestream":
+		rsrc = &byteStreamSrc{streamSrc{b: stream}}
+	}
+	res := watch.Call(Marker, func() { br, err = bgzf.NewReader(rsrc, sc.RD) })
 	if res.Res != "ok" {
 		t.Ev("stuck", tr.M{"op": "new", "res": res.Res, "detail": res.Detail, "sig": "reader/new/" + res.Res})
 		return replies
